@@ -292,6 +292,95 @@ def plans_body(ctx, batch):
         ctx.note(case, True, "plan:" + case["vendor"], evals=4)
 
 
+# ------------------------------------------------------------------------------------------ library components, elaborated twice
+def _lib_makers():
+    from amaranth.hdl import Module, Signal, ClockDomain, Value, signed
+    from amaranth.lib import fifo, cdc, io, data, memory
+    from amaranth.lib.crc import catalog, Algorithm
+    mk = {}
+    for d in (0, 1, 2, 5, 8):
+        for w in (0, 3):
+            mk[f"SyncFIFO({w},{d})"] = (lambda w=w, d=d: fifo.SyncFIFO(width=w, depth=d), ["sync"])
+            mk[f"SyncFIFOBuffered({w},{d})"] = (lambda w=w, d=d: fifo.SyncFIFOBuffered(width=w, depth=d), ["sync"])
+            mk[f"AsyncFIFO({w},{d})"] = (lambda w=w, d=d: fifo.AsyncFIFO(width=w, depth=d), ["read", "write"])
+            mk[f"AsyncFIFOBuffered({w},{d})"] = (lambda w=w, d=d: fifo.AsyncFIFOBuffered(width=w, depth=d), ["read", "write"])
+    for st_ in (2, 3):
+        for sg in (False, True):
+            mk[f"FFSynchronizer({st_},{sg})"] = (lambda st_=st_, sg=sg: cdc.FFSynchronizer(
+                Signal(signed(3) if sg else 3, name="i"), Signal(4, name="o"), stages=st_, init=1), ["sync"])
+        for edge in ("pos", "neg"):
+            mk[f"AsyncFFSynchronizer({st_},{edge})"] = (lambda st_=st_, edge=edge: cdc.AsyncFFSynchronizer(
+                Signal(name="i"), Signal(name="o"), stages=st_, async_edge=edge), ["sync"])
+        mk[f"ResetSynchronizer({st_})"] = (lambda st_=st_: cdc.ResetSynchronizer(Signal(name="arst"), stages=st_), ["sync"])
+        mk[f"PulseSynchronizer({st_})"] = (lambda st_=st_: cdc.PulseSynchronizer("a", "b", stages=st_), ["a", "b"])
+    for name, dw in (("CRC16_CCITT_FALSE", 8), ("CRC32_ETHERNET", 16), ("CRC8_AUTOSAR", 3), ("CRC5_USB", 5)):
+        mk[f"crc.{name}({dw})"] = (lambda name=name, dw=dw: getattr(catalog, name)(dw).create(), ["sync"])
+    mk["crc.reflected-even-poly"] = (lambda: Algorithm(crc_width=6, polynomial=0x26, initial_crc=5, reflect_input=True,
+                                                        reflect_output=False, xor_output=9)(4).create(), ["sync"])
+    for dirn in ("i", "o", "io"):
+        mk[f"io.Buffer({dirn})"] = (lambda dirn=dirn: io.Buffer(dirn, io.SimulationPort(dirn, 3, invert=[True, False, True])), [])
+        mk[f"io.FFBuffer({dirn})"] = (lambda dirn=dirn: io.FFBuffer(dirn, io.SimulationPort(dirn, 2, invert=[False, True])), ["sync"])
+    return mk
+
+
+def _lib_ports(obj):
+    from amaranth.hdl import Signal
+    from amaranth.lib import io, data
+    if isinstance(obj, (io.Buffer, io.FFBuffer)):
+        sigs = []
+        for holder, names in ((obj, ("i", "o", "oe")), (obj.port, ("i", "o", "oe"))):
+            for n in names:
+                try:
+                    sigs.append(getattr(holder, n))
+                except AttributeError:
+                    pass
+        return sigs
+    out = []
+    for v in vars(obj).values():
+        if isinstance(v, Signal):
+            out.append(v)
+        elif isinstance(v, data.View):
+            out.append(v.as_value())
+    return out
+
+
+def library_cases(ctx):
+    for i, name in enumerate(sorted(_lib_makers())):
+        if i % ctx.nshards == ctx.shard:
+            yield name
+
+
+def library_body(ctx, name):
+    from amaranth.hdl import Module, ClockDomain
+    from amaranth.back import rtlil
+    make, doms = _lib_makers()[name]
+
+    def build():
+        obj = make()
+        top = Module()
+        for d in doms:
+            top.domains += ClockDomain(d)
+        top.submodules.dut = obj
+        return top, _lib_ports(obj)
+    with warnings.catch_warnings():
+        warnings.simplefilter("ignore")
+        top, ports = build()
+        t1 = rtlil.convert(top, ports=ports)
+        try:
+            t2 = rtlil.convert(top, ports=ports)
+        except Exception as e:
+            raise Mismatch("library-component-second-conversion-failed", component=name, error=f"{type(e).__name__}: {e}"[:300])
+        top3, ports3 = build()
+        t3 = rtlil.convert(top3, ports=ports3)
+    if t1 != t3:
+        raise Mismatch("library-component-two-fresh-builds-differ", component=name)
+    if t1 != t2:
+        import difflib
+        diff = [l for l in difflib.unified_diff(t1.splitlines(), t2.splitlines(), lineterm="", n=0)][:12]
+        raise Mismatch("library-component-converted-twice-differs", component=name, first_differences=diff)
+    ctx.note(["library", name], True, "lib:component-converted-twice", evals=3)
+
+
 def parts(tier):
     q = tier == "quick"
     simorder.install()
@@ -299,11 +388,12 @@ def parts(tier):
         Part("rtlil", "hyp", strategy=rtlil_batches(6 if q else 10), body=rtlil_body, n=3 if q else 20),
         Part("sim", "hyp", strategy=sim_cases(), body=sim_body, n=40 if q else 400),
         Part("plans", "hyp", strategy=plan_batches(3 if q else 6), body=plans_body, n=2 if q else 10),
+        Part("library", "enum", cases=library_cases, body=library_body, exhaustive=True),
     ]
 
 
 REQUIRED = ["rtlil:design", "rtlil:>=2-implicit-domains", "rtlil:name-clash", "rtlil:anonymous-submodule",
             "rtlil:instance-with-clocksignal", "rtlil:memory", "rtlil:renamer-around-kept-clock-domain",
             "rtlil:renamer-map-revisits-a-name", "rtlil:kept-memory-primitive",
-            "rtlil:component-returning-a-kept-instance", "sim:history", "sim:partial-run-before-reset",
+            "rtlil:component-returning-a-kept-instance", "lib:component-converted-twice", "sim:history", "sim:partial-run-before-reset",
             "sim:with-processes", "sim:memory-written", "plan:icestorm", "plan:trellis", "plan:apicula"]
